@@ -1,10 +1,30 @@
-//! C03 — stub: property not yet claimed.
+//! C03 — requests and responses on the wire are spec-conformant gRPC (body part).
 use crate::common::*;
+use crate::framing::*;
 
-pub fn generate(_tier: &str, _rng: &mut Rng) -> Vec<String> {
-    Vec::new()
+pub fn generate(tier: &str, rng: &mut Rng) -> Vec<String> {
+    let thorough = tier == "thorough";
+    let mut out = Vec::new();
+    out.push(
+        EncCase { server: true, comp: None, disable: false, yield_thr: 32768, buf_size: 8192, max: Some(10),
+                  evs: vec!["i010203".into(), "i040506".into(), format!("i{}", "07".repeat(100)), "i01".into()],
+                  items: vec![vec![1, 2, 3], vec![4, 5, 6], vec![7; 100], vec![1]], extra_polls: 4 }.line(),
+    );
+    out.push(
+        EncCase { server: true, comp: None, disable: false, yield_thr: 0, buf_size: 8192, max: None,
+                  evs: vec!["i0102".into(), "e5".into(), "i03".into(), "i04".into()],
+                  items: vec![vec![1, 2], vec![3], vec![4]], extra_polls: 4 }.line(),
+    );
+    let n = if thorough { 40000 } else { 4000 };
+    for _ in 0..n {
+        let (e, l) = (rng.chance(1, 2), rng.chance(1, 3));
+        let mut c = gen_enc_case(rng, e, l);
+        c.extra_polls += 2;
+        out.push(c.line());
+    }
+    out
 }
 
-pub fn execute(_case: &str) -> String {
-    "unclaimed".into()
+pub fn execute(case: &str) -> String {
+    crate::framing::execute(case)
 }
